@@ -272,6 +272,9 @@ class GaussianBackend(BaseGaussian):
         m = self.circuit.scovmat()
         r = self.circuit.smean()
 
+        if isinstance(modes, int):
+            modes = [modes]
+
         if modes is None:
             modes = list(range(len(self.get_modes())))
 
